@@ -391,6 +391,12 @@ func (e *Engine) RunHarness(h *Harness) *HarnessResult {
 				fmt.Fprintln(os.Stderr, "solver start failed:", err)
 				return
 			}
+			if wid == 0 && e.logSmt != "" {
+				if f, err := os.OpenFile(e.logSmt, os.O_CREATE|os.O_WRONLY|os.O_APPEND, 0o644); err == nil {
+					solver.log = f
+					defer f.Close()
+				}
+			}
 			defer func() {
 				mu.Lock()
 				res.Queries += solver.Queries
